@@ -357,6 +357,45 @@ fn dictionary(ctx: &mut Ctx, base: &Xstate, per_word: usize) {
     ctx.note(format!("dictionary words tested: {}; excluded (tag / printing / external / immediate): {}", tested, skipped.join(" ")));
 }
 
+/// Comparisons of a value with a copy of itself (`dup`, a variable read twice — copies of a tagged value share one
+/// box) and `case … of`, which compares with the candidate inside the instruction rather than through a word: whether
+/// the selector, the candidate, both or neither carry tags, the same branch is taken and the same answer given — also
+/// for values that are not equal to themselves (NaN, and anything that holds one).
+fn copies_and_case(ctx: &mut Ctx, base: &Xstate) {
+    const SNIPPETS: &[&str] = &[
+        "s case c of 1 endof drop 0 endcase", "c case s of 1 endof drop 0 endcase", "s dup case of 1 endof drop 0 endcase", "s case 1 of 10 endof c of 20 endof drop 30 endcase",
+        "s s equal?", "s dup equal?", "s c equal?", "c s equal?", "s dup ==", "s dup <>", "s s assert-eq 1", "s c assert-eq 1", "[ s s ] dup 0 nth swap 1 nth equal?",
+        "s dup 2 collect dup equal?", "s local x x x equal?", ": cmp dup equal? ; s cmp", "[ s ] [ s ] equal?", "[ s ] dup equal?", "{ 1 s } { 1 s } equal?", "s c 2 collect sort length",
+    ];
+    let nan = f64::NAN;
+    let pool: Vec<Cell> = vec![Cell::Int(2), Cell::Int(1), Cell::from("b"), Cell::from("a"), Cell::Real(nan), Cell::Real(1.5), Cell::Real(-0.0), vec_cell(&[Cell::Real(nan)]),
+        vec_cell(&[Cell::Int(1), Cell::Int(2)]), Cell::Nil, Cell::Flag(true), Cell::Bitstr(Xbitstr::from(vec![0xA5u8])), vec_cell(&[vec_cell(&[Cell::Real(nan), Cell::Int(3)])])];
+    let s0 = ctx.rng.pick(&pool).clone();
+    let c0 = if ctx.rng.chance(55) { s0.clone() } else { ctx.rng.pick(&pool).clone() };
+    let snippet = *ctx.rng.pick(SNIPPETS);
+    let run1 = |s: &Cell, c: &Cell| -> (String, Option<Vec<Cell>>) {
+        let mut xs = base.clone();
+        let r = crate::guarded(|| {
+            xs.push_data(s.clone())?; xs.eval("var s")?;
+            xs.push_data(c.clone())?; xs.eval("var c")?;
+            xs.eval(snippet)
+        });
+        match r {
+            None => ("panic".into(), None),
+            Some(Ok(())) => { let st: Vec<Cell> = canon::stack(&xs).iter().map(canon::canon_nan).collect(); (canon::ok_stack(&st), Some(st)) }
+            Some(Err(e)) => (format!("err {}", canon::err(&e).split(':').next().unwrap_or("")), None),
+        }
+    };
+    let plain = run1(&s0, &c0);
+    let d = ctx.rng.below(2) as u32;
+    let (st, ct) = (tag_deep(&mut ctx.rng, &s0, d), tag_deep(&mut ctx.rng, &c0, d));
+    for (name, s, c) in [("selector tagged", &st, &c0), ("candidate tagged", &s0, &ct), ("both tagged", &st, &ct)] {
+        let got = run1(s, c);
+        ctx.check(agree(&plain, &got), || format!("C13 `{}` with s={} c={} | {}: s={} c={}", snippet, canon::cell(&s0), canon::cell(&c0), name, canon::cell(s), canon::cell(c)), || plain.0.clone(), || got.0.clone());
+    }
+    ctx.tag("copies-and-case");
+}
+
 pub fn run(ctx: &mut Ctx) {
     let mut base = Xstate::boot().unwrap();
     base.intercept_stdout(true);
@@ -367,6 +406,7 @@ pub fn run(ctx: &mut Ctx) {
     dictionary(ctx, &base, per_word);
     for i in 0..ctx.n {
         if i % 5 == 4 { tag_laws(ctx, &base) } else { modelled(ctx, &base) }
+        if i % 4 == 0 { copies_and_case(ctx, &base) }
     }
     // the words that hand back the parsing state (`input`, `offset`, `remain`) give plain values: whatever bookkeeping
     // the interpreter keeps on the stashed inputs of nested `open-bitstr` … `close-bitstr` does not show as tags
